@@ -14,10 +14,13 @@ package scen
 import (
 	"context"
 	"encoding/json"
+	"errors"
 	"fmt"
 	"math/rand"
 	"net"
 	"strings"
+	"sync"
+	"sync/atomic"
 	"time"
 
 	"crypto/tls"
@@ -717,6 +720,39 @@ func c19ForgedTwin(c *Ctx, idx int) {
 		// then the impostor, through the same endpoint object
 		acc, cerr, obs, ok := dial(tg.ep, ver, fg.chain)
 		judge("after-a-genuine-handshake", tg.name, acc, cerr, obs, ok)
+		// ... and six connections to the impostor at the same moment (what a pool with several connections per host, or
+		// several sessions connecting at once, do)
+		if ti == 1 || len(targets) == 1 {
+			sc := &c19ServerCase{version: ver, chain: fg.chain}
+			node.setCase(sc)
+			var wg sync.WaitGroup
+			accepted := int32(0)
+			var firstErr atomic.Value
+			for k := 0; k < 6; k++ {
+				wg.Add(1)
+				go func() {
+					defer wg.Done()
+					ctx, cancel := context.WithTimeout(context.Background(), 20*time.Second)
+					defer cancel()
+					cl, cerr := proxycore.ConnectClient(ctx, tg.ep, proxycore.ClientConnConfig{})
+					if cerr == nil && cl != nil {
+						atomic.AddInt32(&accepted, 1)
+						_, _ = cl.Handshake(ctx, primitive.ProtocolVersion4, nil)
+						_ = cl.Close()
+					} else if cerr != nil {
+						firstErr.Store(cerr.Error())
+					}
+				}()
+			}
+			wg.Wait()
+			okc := sc.waitConns(6, 8*time.Second)
+			node.setCase(nil)
+			var e error
+			if v, _ := firstErr.Load().(string); v != "" {
+				e = errors.New(v)
+			}
+			judge("six-connections-at-once", tg.name, atomic.LoadInt32(&accepted) > 0, e, sc.snapshot(), okc)
+		}
 	}
 }
 
